@@ -14,6 +14,7 @@ import (
 type C09Case struct {
 	Recv  Node      `json:"recv"` // stack or cond description
 	Rich  bool      `json:"rich"` // install policies, aux, id, category, log levels, less func, mutex
+	Invalid bool    `json:"invalid,omitempty"` // the installed validity policy REJECTS the instance (read-only must hold all the same)
 	Calls []C17Call `json:"calls"`
 }
 
@@ -80,9 +81,21 @@ func runC09(c C09Case) (st Stats, err error) {
 	defer c09Report()
 	isCond := c.Recv.IsCond()
 	var recv, twin any
+	reject := func(x any) {
+		if !c.Invalid {
+			return
+		}
+		if s, ok := x.(stackage.Stack); ok {
+			s.SetValidityPolicy(func(...any) error { return fmt.Errorf("rejected") })
+		} else if cd, ok := x.(stackage.Condition); ok {
+			cd.SetValidityPolicy(func(...any) error { return fmt.Errorf("rejected") })
+		}
+	}
 	if p := guard(func() {
 		recv = buildRich(c.Recv, c.Rich)
 		twin = buildRich(c.Recv, c.Rich)
+		reject(recv)
+		reject(twin)
 	}); p != "" {
 		return st, violf("setup/panic", "%s", p)
 	}
@@ -169,6 +182,7 @@ func runC09(c C09Case) (st Stats, err error) {
 			// rebuild the twin so every call is measured from the same state
 			guard(func() {
 				t2 := buildRich(c.Recv, c.Rich)
+				reject(t2)
 				if isCond {
 					b := t2.(stackage.Condition)
 					tcp = &b
@@ -323,7 +337,7 @@ func runC09(c C09Case) (st Stats, err error) {
 	if v != nil {
 		return st, v
 	}
-	sig := c.Recv.Brief() + fmt.Sprint(c.Rich)
+	sig := c.Recv.Brief() + fmt.Sprint(c.Rich, c.Invalid)
 	for _, call := range c.Calls {
 		sig += fmt.Sprintf("|%s#%d", call.Method, call.Variant)
 	}
@@ -332,6 +346,9 @@ func runC09(c C09Case) (st Stats, err error) {
 		st.Class("recv:Condition")
 	} else {
 		st.Class("recv:" + c.Recv.Kind)
+	}
+	if c.Invalid {
+		st.Class("recv-rejected-by-its-validity-policy")
 	}
 	return st, nil
 }
@@ -362,6 +379,9 @@ func enumC09(tier Tier, yield func(C09Case)) {
 		for _, m := range ms {
 			for v := 0; v < variants; v++ {
 				yield(C09Case{Recv: tpl.n, Rich: tpl.rich, Calls: []C17Call{{m.Name, v}}})
+				if v < 3 {
+					yield(C09Case{Recv: tpl.n, Rich: tpl.rich, Invalid: true, Calls: []C17Call{{m.Name, v + 3}}})
+				}
 			}
 		}
 	}
@@ -372,7 +392,7 @@ var c09RecvGen = TreeGen{MaxDepth: 2, MaxWidth: 4, Budget: 12, Kinds: stackKinds
 	Options: true, Caps: true, IndexOpts: true, MutexOpt: true, FIFOOpt: true}
 
 func genC09(t *rapid.T, tier Tier) C09Case {
-	c := C09Case{Rich: rapid.Bool().Draw(t, "rich")}
+	c := C09Case{Rich: rapid.Bool().Draw(t, "rich"), Invalid: rapid.IntRange(0, 4).Draw(t, "invalid") == 0}
 	ms := stackMethods
 	if rapid.IntRange(0, 3).Draw(t, "cond") == 0 {
 		g := c09RecvGen
@@ -404,7 +424,7 @@ func init() {
 		Run:      runC09,
 		Enum:     enumC09,
 		EnumNote: "all reflected Stack and Condition methods x 12/40 argument variants x 7 receiver templates",
-		Floors:   map[string]float64{"recv:Condition": 0.1, "flag-cleared-and-restored": 0.01},
+		Floors:   map[string]float64{"recv:Condition": 0.1, "flag-cleared-and-restored": 0.01, "recv-rejected-by-its-validity-policy": 0.1},
 		Assumptions: []string{"closures installed on the receiver are pure recorders", "a panic of the writable twin is C08's business and is ignored here"},
 	})
 }
